@@ -469,6 +469,57 @@ func c11Guards(c *Ctx, byPath map[string]*ssa.Function) {
 			return t.Op == "binop" && t.Name == "-" && t.Args[0].IsField("version", isParam(fn, 0))
 		})
 		c.Check(ok, "R3", "version-clamp", call.Pos(), "queried version clamped to the current version", "the history proof is requested for "+v.String()+": a queried version beyond the current one is not clamped and the prover walks past the last leaf")
+		// the clamp must take effect for every queried version above the last one (version-1), not only above `version`
+		if ph, isPhi := callCommon(call).Args[2].(*ssa.Phi); isPhi && ok {
+			okCond := false
+			var seen []string
+			for _, pred := range ph.Block().Preds {
+				for _, k := range p.CondsAtEdge(pred, ph.Block()) {
+					a := k.Atom
+					if a.Op != "LT" {
+						continue
+					}
+					isQ := func(t *Term) bool { return t.IsParam(fn, 2) }
+					isLast := func(t *Term) bool {
+						return t.Op == "binop" && t.Name == "-" && t.Args[0].IsField("version", isParam(fn, 0)) && t.Args[1].Name == "1"
+					}
+					isCount := func(t *Term) bool { return t.IsField("version", isParam(fn, 0)) }
+					seen = append(seen, k.String())
+					// q > version-1   |   !(q < version)   (and their negations on the other edge)
+					if isLast(a.Args[0]) && isQ(a.Args[1]) || isQ(a.Args[0]) && isCount(a.Args[1]) {
+						okCond = true
+					}
+				}
+			}
+			c.Check(okCond, "R3", "version-clamp:bound", call.Pos(), "clamped exactly when the queried version exceeds version-1", "the clamp of the queried version is not decided by comparing it with the last existing version (version-1): "+strings.Join(seen, " ∧ ")+"; a query for exactly `version` (one past the last) reaches the prover unclamped and it aborts on a missing node")
+		}
+	}
+	// (f) the bulk that is guarded against emptiness is the bulk that is encoded: every event of the
+	// request is hashed into the command unconditionally (a filter between the guard and the command
+	// lets an empty command through)
+	{
+		rAB := p.MustMethod(pkgConsensus, "RaftNode", "AddBulk")
+		rg := p.RegionOf(rAB, 2)
+		n := 0
+		for _, ri := range rg.Calls(func(k *ssa.CallCommon) bool { return isHasherInvoke(k, "Do") }) {
+			if !rg.InCycle(ri) {
+				continue
+			}
+			n++
+			var extra []string
+			for _, k := range rg.Conds(ri) {
+				if k.Atom.Op == "LT" && strings.Contains(k.Atom.String(), "µ") {
+					continue // the loop bound
+				}
+				if inCycleCond(k) {
+					extra = append(extra, k.String())
+				}
+			}
+			c.Check(len(extra) == 0, "R3", "non-empty-bulk:every-event-encoded", ri.in.Pos(), "each event of the bulk is hashed into the command", "events are hashed into the replicated command only under "+strings.Join(extra, " ∧ ")+": the emptiness guard tests the request's bulk, not what is encoded, so a bulk of skipped events proposes an empty command that every replica's FSM aborts on")
+		}
+		if n == 0 {
+			c.Fail("R3", "non-empty-bulk:every-event-encoded", rAB.Pos(), "the loop hashing the events of the bulk was not found")
+		}
 	}
 }
 
@@ -597,4 +648,12 @@ func lruDiscipline(c *Ctx, rule string) {
 		}
 	}
 	c.Check(ok, rule, funcName(get), get.Pos(), "a hit moves the entry to the front", "a cache hit does not refresh the entry's recency (no MoveToFront on the hit path): the cache degrades to FIFO and nodes frozen earlier in the same bulk — which exist nowhere else until the batch is persisted — are evicted while still needed; the insert visitor then aborts")
+}
+
+// inCycleCond: the condition is decided inside a loop (its If block is in a cycle).
+func inCycleCond(k Cond) bool {
+	if in, ok := k.V.(ssa.Instruction); ok && in.Block() != nil {
+		return inCycle(in.Block())
+	}
+	return true
 }
